@@ -229,6 +229,54 @@ let () =
         let ms = List.filter (fun m -> m <> link_heartbeat) ms in
         Printf.sprintf "dec=%s err=%s" (fmt_list fmt_msg ms) (derr_name e)) results in
       Printf.printf "%s\t%s\n" id (String.concat " | " (Printf.sprintf "wf=%d" (if wf then 1 else 0) :: parts))
+    | id :: "T" :: _ :: local :: remote :: payload :: db :: _ ->
+      (* two real transports: per phase MsgApp over a fresh msgappv2 connection, MsgSnap over the pipeline
+         (or, for the last one when a db payload is given, the snapshot path), the rest over the message stream *)
+      let local = n_of_hex local and remote = n_of_hex remote in
+      let phases = List.map (fun c -> List.map msg_of (kids c)) (kids (parse_tree payload)) in
+      let use_db = db <> "-" && db <> "" in
+      let dbb = if use_db then bytes_of_tok db else [] in
+      let nph = List.length phases in
+      let snapdb = ref "-" in
+      let parts = List.mapi (fun pi ms ->
+        let apps = List.filter (fun m -> m.m_type = msg_app) ms in
+        let snaps = List.filter (fun m -> m.m_type = msg_snap) ms in
+        let others = List.filter (fun m -> m.m_type <> msg_app && m.m_type <> msg_snap) ms in
+        let (da, _) = v2_run local remote (v2_encode_all st0 apps) in
+        let da = List.filter (fun m -> m <> link_heartbeat) da in
+        let (dox, _) = plain_run (plain_encode_all others) in
+        let nsn = List.length snaps in
+        let ds = List.concat (List.mapi (fun i m ->
+          if use_db && pi = nph - 1 && i = nsn - 1 then
+            (match snap_receive false (snap_body m dbb) with
+             | SnapDelivered (m', d) -> snapdb := fmt_bytes d; [fmt_msg m']
+             | SnapRejected -> [])
+          else (match pipeline_receive false (pipeline_body m) with Some m' -> [fmt_msg m'] | None -> [])) snaps) in
+        let ds = List.sort compare ds in
+        Printf.sprintf "app=%s other=%s snap=(%s)" (fmt_list fmt_msg da) (fmt_list fmt_msg dox) (String.concat " " ds)) phases in
+      Printf.printf "%s\tunreach=0 | %s | snapdb=%s\n" id (String.concat " | " parts) !snapdb
+    | id :: "H" :: kind :: _ :: _ :: payload :: spec :: _ ->
+      (* the pipeline / snapshot handler on a body cut at k, ending cleanly (s=0) or with an HTTP-level error (s=1) *)
+      let m = (match List.map msg_of (kids (parse_tree payload)) with [m] -> m | _ -> failwith "H: one message") in
+      let (dbtok, cuts) = (match String.index_opt spec ' ' with
+        | Some i -> (String.sub spec 0 i, String.sub spec (i + 1) (String.length spec - i - 1))
+        | None -> failwith "H: spec") in
+      let db = if dbtok = "-" then [] else bytes_of_tok dbtok in
+      let body = if kind = "pipe" then pipeline_body m else snap_body m db in
+      let n = List.length body in
+      let outs = List.map (fun sp ->
+        match String.split_on_char ':' sp with
+        | [k; s] ->
+          let k = min (int_of_string k) n and short = (s = "1") in
+          let p = take k body in
+          let res =
+            if kind = "pipe" then (match pipeline_receive short p with Some m' -> "msg:" ^ fmt_msg m' | None -> "rej")
+            else (match snap_receive short p with
+                  | SnapDelivered (m', d) -> "msg:" ^ fmt_msg m' ^ " db:" ^ fmt_bytes d
+                  | SnapRejected -> "rej") in
+          Printf.sprintf "%d/%s=%s" k s res
+        | _ -> failwith "H: cut") (String.split_on_char ',' cuts) in
+      Printf.printf "%s\t%s\n" id (String.concat " | " outs)
     | id :: "R" :: codec :: local :: remote :: payload :: cuts :: _ ->
       let local = n_of_hex local and remote = n_of_hex remote in
       let stream = bytes_of_tok payload in
